@@ -76,7 +76,7 @@ class ValueOracle(object):
     """Extra absolute tolerance when (part of) the derivative is a central difference
     with h = 1e-6 (rounding 64 u M / h^n + truncation)."""
     r = F(r)
-    M = self.vscale(r)
+    M = max(self.vscale(r), self.mag(r))   # rounding of f(r+-h/2) is relative to the cancelling terms, not to |f|
     try:
       d3 = abs(mp.diff(lambda y: self.m.value(self.node, y, r), r, n + 2))
     except Exception:
@@ -84,6 +84,22 @@ class ValueOracle(object):
     if n == 1:
       return 64 * U * M / H + mpf("1e-12") * d3
     return 256 * U * M / H ** 2 + mpf("1e-12") * d3 + 64 * U * self.dscale(r, 1) / H
+
+
+def overflow_is_out_of_domain(oracle_points, limit="1e200"):
+  """After the code under test raised OverflowError: True when some (sub-)expression of the
+  reference exceeds what doubles can hold on the evaluated grid - the generated model is then
+  outside the usable domain of its forms and the case is not judged.
+  oracle_points: iterable of (ValueOracle, iterable of r)."""
+  lim = mpf(limit)
+  for orc, pts in oracle_points:
+    for x in pts:
+      try:
+        if orc.m.max_submag(orc.node, F(x)) > lim:
+          return True
+      except (RefDomainError, ZeroDivisionError, ValueError, OverflowError):
+        return True
+  return False
 
 
 def on_break(r, breaks, eps=1e-11):
